@@ -285,3 +285,22 @@ PROPS["C17"] = {
     "outside": ["reactor Receive methods for hostile well-formed messages (H2) other than the consensus vote path: not built", "switch/peer lifecycle", "flow-rate limiting delays", "messages longer than 9 bytes / payload sizes other than 4"],
     "timeout_quick": 400, "timeout_thorough": 1800,
 }
+
+PROPS["C05"] = {
+    "files": ["consensus/replay.go", "consensus/state.go", "state/execution.go", "mempool/v0/clist_mempool.go", "store/store.go", "state/store.go"],
+    "groups": [
+        {"dir": "state",
+         "quick": ["VP_C05_Quiesce_0", "VP_C05_Quiesce_1", "VP_C05_Quiesce_2", "VP_C05_Quiesce_1_concurrent"],
+         "thorough": ["VP_C05_Quiesce_2_concurrent"]},
+        {"dir": "consensus",
+         "quick": ["VP_C05_Pipeline_n3", "VP_C05_Pipeline_n2_crash1", "VP_C05_Pipeline_n3_crash1"],
+         "thorough": ["VP_C05_Pipeline_n2_crash2", "VP_C05_Pipeline_n3_crash2"]},
+    ],
+    "bounds": {
+        "commit pipeline and recovery (H1/H2)": "1-validator chain of 2-3 blocks (0-2 transactions each; in the n3 crash entries the application changes the validator's power and the block size limit at height 1) committed by the real State.finalizeCommit (real block store, state store, BlockExecutor, local ABCI client) on a recording application that keeps height and hash across crashes; 1 (thorough 2) crashes at any database write (single write or atomic batch) or application call, also during recovery; every restart runs the real state load + Handshaker.Handshake + NewState",
+        "mempool quiescence (H3)": "real BlockExecutor.Commit with the real v0 mempool on an asynchronous mempool connection (answers arrive only when flushed or delivered): 0-2 transactions of arbitrary bytes submitted before the commit, each answered or still in flight; the block contains the first one or not; one further CheckTx running concurrently with up to 3 preemptions at synchronisation points",
+    },
+    "stubs": ["pubsub publishing stubbed", "nil WAL (the #ENDHEIGHT marker and WAL catch-up are C15's subject)", "crash = abandon execution at the crash point, keep database contents and the application's committed height/hash"],
+    "outside": ["WAL catch-up replay after the handshake", "applications that are ahead of the block store by more than the in-flight block", "mempool v1", "socket/grpc ABCI clients (modelled by the queued connection)", "chains longer than 3 blocks, more than 2 crashes"],
+    "timeout_quick": 400, "timeout_thorough": 1800,
+}
